@@ -265,6 +265,11 @@ def pick_relay(rng):
     return rng.choice([None, None, None, b"", b"@relay.test", b".via.relay.test"])
 
 
+# wire lines a conforming sender would not produce but a server must still account for byte by byte
+SIZE_GADGETS = [b".\rx\r\n", b".\rxyz\r\n", b".\r\rx\r\n", b"..\r\n", b"..x\r\n", b".x\r\n", b"\rx\r\n", b"x\r\r\n", b"\r\r\n",
+                b"ab\rcd\r\n", b"...\r\n", b".\r.\r\n"]
+
+
 def base_case(daemon, cls, rng, hostile_peer=False):
     c = {"daemon": daemon, "cls": cls, "cut": None, "env": peer_env(rng, hostile_peer), "ctl_db": None,
          "plan": "tee", "shim": None, "modelfree": False}
@@ -313,6 +318,26 @@ def gen_smtp(rng, cls):
             n = max(0, d + rng.choice([-1, 0, 1, 1, 2, -1, 0, 100]))
             body = make_body(rng, hops=rng.choice([0, 1]), size=n, decoys=False)
             ch += smtp_txn(rng, rng.choice(SENDERS), pick_rcpts(rng, relay), body)
+    elif cls == "sizewire":
+        # the size limit meets the decoder: a non-canonical line (bare CR, dot + CR, stuffed dot, CR CR LF) starts
+        # exactly at, just before or just after the last permitted byte
+        d = rng.choice([1, 2, 10, 50, 64, 255, 256, 1000, 1023, 1024, 1025])
+        set_databytes(rng, c, d)
+        for t in range(ntx):
+            n0 = max(0, d + rng.choice([-3, -2, -1, 0, 0, 0, 1]))
+            pre = make_body(rng, hops=0, size=n0, decoys=False) if n0 else b""
+            if pre and not pre.endswith(b"\n"):
+                pre = pre[:-1] + b"\n"
+            g = rng.choice(SIZE_GADGETS)
+            tail = filler(rng, rng.choice([0, 0, 1, 2, 40, 200]))
+            raw = smtpdata.ref_encode(pre)[:-3] + g + smtpdata.ref_encode(tail)
+            r1 = smtpdata.ref_decode(raw)
+            r2 = smtpdata.ref_decode(raw, keepdot=True)
+            assert r1[0] == "ok" and r2[0] == "ok" and r1[2] == len(raw), (raw, r1)
+            ch += smtp_txn(rng, rng.choice(SENDERS), pick_rcpts(rng, relay), r1[1])
+            ch[-1] = c_body(r1[1], raw=raw)
+            if r2[1] != r1[1]:
+                ch[-1]["decoded_alt"] = r2[1]
     elif cls == "hops":
         for t in range(ntx):
             h = rng.choice([98, 99, 100, 101, 99, 100, 150])
